@@ -39,7 +39,7 @@ def load_program(config):
 def run_property(pid, tier, seed):
     t0 = time.time()
     mod = importlib.import_module("rules." + pid)
-    configs = THOROUGH_CONFIGS if tier == "thorough" else QUICK_CONFIGS
+    configs = THOROUGH_CONFIGS if tier == "thorough" else getattr(mod, "QUICK_CONFIGS", QUICK_CONFIGS)
     configs = [c for c in configs if c in getattr(mod, "CONFIGS", THOROUGH_CONFIGS)]
     all_findings = []
     per_cfg = []
@@ -58,6 +58,8 @@ def run_property(pid, tier, seed):
                 continue
             if prog.crate != "feoxdb" and not hasattr(mod, "check_bin"):
                 continue
+            if prog.crate == "feoxdb" and cfg == "bin" and "lib" in configs:
+                continue        # the library was already analysed in the `lib` configuration of this run
             ctx = Ctx(prog, pid, cfg)
             try:
                 if prog.crate == "feoxdb":
